@@ -5,5 +5,6 @@ CONSTANTS
   IsBlob = TRUE
   SetterMarksDirty = TRUE
   ExplicitSha1Recomputes = TRUE
+  DirtyUntilSerialized = TRUE
   ChunkedResetsSha = TRUE
 CHECK_DEADLOCK FALSE
